@@ -209,7 +209,7 @@ func (l *Loaded) IsGenerated(p token.Pos) bool {
 		return false
 	}
 	f := l.Fset.Position(p).Filename
-	return strings.HasSuffix(f, ".pb.go") || strings.HasSuffix(f, ".pb.gw.go") || strings.HasSuffix(f, "_test.go")
+	return strings.HasSuffix(f, ".pb.go") || strings.HasSuffix(f, ".pb.gw.go") || strings.HasSuffix(f, "_test.go") || IsTestSupport(f)
 }
 
 // Pkg returns the root package with the given import path suffix.
@@ -220,4 +220,11 @@ func (l *Loaded) Pkg(suffix string) *packages.Package {
 		}
 	}
 	return nil
+}
+
+// IsTestSupport reports non-_test files that only hold test scaffolding
+// (mocks, test environments); they are compiled into the package but are not
+// production code and never rule sites or call-graph targets.
+func IsTestSupport(file string) bool {
+	return strings.HasSuffix(file, "/test_common.go")
 }
